@@ -138,6 +138,19 @@ func init() {
 							}
 						}
 						if pt == nil {
+							// scan a 1-degree grid (centres at .5) for a point inside the CRS's area of use
+							crs := wgs84.EPSG().Code(code)
+						scan:
+							for la := -79.5; la < 84; la++ {
+								for lo := -179.5; lo < 180; lo++ {
+									if crs.Contains(lo, la) && crs.Contains(lo+0.01, la-0.01) {
+										pt = &[2]float64{lo, la}
+										break scan
+									}
+								}
+							}
+						}
+						if pt == nil {
 							c.Skip("no-candidate-point-inside-area")
 						}
 						a, _ := object.NewPoint(pt[0], pt[1], 7.25)
@@ -146,6 +159,14 @@ func init() {
 						d := map[string]any{"code": code, "point": *pt}
 						c.Observe("%d %v %v", code, len(pr), err)
 						if err != nil {
+							// a failure is legitimate only if the CRS library itself refuses these points
+							geo, pro := wgs84.EPSG().Code(4326), wgs84.EPSG().Code(code)
+							_, _, _, e1 := wgs84.SafeTransform(geo, pro)(a.Lon(), a.Lat(), a.Alt())
+							_, _, _, e2 := wgs84.SafeTransform(geo, pro)(b.Lon(), b.Lat(), b.Alt())
+							if e1 == nil && e2 == nil {
+								d["err"] = err.Error()
+								c.Violation("C18:ConvertPointListToProjectedPointList:error-for-supported-crs-and-covered-point", d)
+							}
 							c.Count("forward_conversion_error")
 							return
 						}
@@ -157,6 +178,13 @@ func init() {
 						}
 						back, err := shape.ConvertProjectedPointListToPointList(pr, code)
 						if err != nil {
+							geo, pro := wgs84.EPSG().Code(4326), wgs84.EPSG().Code(code)
+							_, _, _, e1 := wgs84.SafeTransform(pro, geo)(pr[0].X, pr[0].Y, pr[0].Alt)
+							_, _, _, e2 := wgs84.SafeTransform(pro, geo)(pr[1].X, pr[1].Y, pr[1].Alt)
+							if e1 == nil && e2 == nil {
+								d["err"] = err.Error()
+								c.Violation("C18:ConvertProjectedPointListToPointList:error-for-supported-crs-and-covered-point", d)
+							}
 							c.Count("backward_conversion_error")
 							return
 						}
